@@ -14,6 +14,11 @@ multi_strings! family), the parts of the reader that are tables, constants, matc
   RD_MAC_VERSIONS     MinidumpMacCrashInfo::read: the do_read! table in source order
                       (minimum version, size of the fixed record, number of strings)
   RD_MAC_RECORDS_MAX  length of MINIDUMP_MAC_CRASH_INFO::records
+  RD_VERSION_MASK     Minidump::read: the mask of the version test
+  RD_READ_STEPS       Minidump::read: its statements, in order (little-endian header, signature or byte-swapped signature,
+                      big-endian re-read, version test, seek, directory walk with BTreeMap::insert, system info, result);
+                      the warn! calls are ignored; any other statement that touches the map or returns aborts
+  (checked, no output) the bodies of get_stream, get_raw_stream, location_slice, get_memory, all_streams, unknown_streams
 
 Aborts (exit 2) on source it does not recognise."""
 import os
@@ -266,6 +271,70 @@ body = re.sub(r"\s+", " ", rd[m.end():matching(rd, m.end() - 1)]).strip()
 if body != ("let initial_offset = *offset; loop { let byte: u8 = bytes.gread(offset).ok()?; if byte == 0 { break; } } "
             "std::str::from_utf8(&bytes[initial_offset..*offset - 1]) .map(String::from) .ok()"):
     die("read_cstring_utf8 changed: %s" % body)
+
+# ---- Minidump::read / get_stream / get_raw_stream / location_slice / get_memory: the order of steps
+def fn_body(sig_re, what):
+    m = re.search(sig_re, rd)
+    if not m:
+        die("fn %s" % what)
+    ob = rd.index("{", m.end() - 1) if rd[m.end() - 1] != "{" else m.end() - 1
+    return re.sub(r"\s+", " ", rd[ob + 1:matching(rd, ob)]).strip()
+
+
+def steps_in_order(body, what, steps):
+    """every (name, needle) must occur in `body`, each after the previous one; returns the names"""
+    pos, names = 0, []
+    for name, needle in steps:
+        k = body.find(needle, pos)
+        if k < 0:
+            die("%s: step `%s` (%s) not found after the previous step" % (what, needle, name))
+        pos = k + len(needle)
+        names.append(name)
+    return names
+
+
+read_body = fn_body(r"pub fn read\(data: T\) -> Result<Minidump<'a, T>, Error> \{", "Minidump::read")
+# the warn! calls do not take part in the result: drop them before looking at the statements
+read_nowarn = re.sub(r"warn!\((?:[^()]|\([^()]*\))*\);", "", read_body)
+mm = re.search(r"if \(header\.version & (0x[0-9a-fA-F_]+)\) != md::MINIDUMP_VERSION \{ return Err\(Error::VersionMismatch\); \}", read_nowarn)
+if not mm:
+    die("Minidump::read: version test")
+READ_STEPS = steps_in_order(read_nowarn, "Minidump::read", [
+    ("header_little_endian", "let mut offset = 0; let mut endian = LE; let mut header: md::MINIDUMP_HEADER = data .gread_with(&mut offset, endian) .or(Err(Error::MissingHeader))?;"),
+    ("signature_or_swapped", "if header.signature != md::MINIDUMP_SIGNATURE { if header.signature.swap_bytes() != md::MINIDUMP_SIGNATURE { return Err(Error::HeaderMismatch); }"),
+    ("header_big_endian", "endian = BE; offset = 0; header = data .gread_with(&mut offset, endian) .or(Err(Error::MissingHeader))?; if header.signature != md::MINIDUMP_SIGNATURE { return Err(Error::HeaderMismatch); } }"),
+    ("version_low_half", mm.group(0)),
+    ("seek_directory", "offset = header.stream_directory_rva as usize;"),
+    ("map_empty", "let mut streams = BTreeMap::new();"),
+    ("walk_count_entries", "for i in 0..header.stream_count { let dir: md::MINIDUMP_DIRECTORY = data .gread_with(&mut offset, endian) .or(Err(Error::MissingDirectory))?;"),
+    ("insert_replaces_earlier", "streams.insert(dir.stream_type, (i, dir.clone()))"),
+    ("system_info_from_map", "let system_info = streams .get(&MinidumpSystemInfo::STREAM_TYPE) .and_then(|(_, dir)| { location_slice(data.deref(), &dir.location) .ok() .and_then(|bytes| { let all_bytes = data.deref(); MinidumpSystemInfo::read(bytes, all_bytes, endian, None).ok() }) });"),
+    ("result", "Ok(Minidump { data, header, streams, endian, system_info, _phantom: PhantomData, })"),
+])
+# nothing else may write to the map or return early
+if len(re.findall(r"\bstreams\b", read_nowarn)) != 4 or read_nowarn.count("return ") != 3 or read_nowarn.count("?;") != 3:
+    die("Minidump::read: an additional statement touches `streams` or leaves the function")
+gs = fn_body(r"pub fn get_stream<S>\(&'a self\) -> Result<S, Error>\s+where\s+S: MinidumpStream<'a>,\s*\{", "get_stream")
+if gs != ("match self.get_raw_stream(S::STREAM_TYPE) { Err(e) => Err(e), Ok(bytes) => { let all_bytes = self.data.deref(); "
+          "S::read(bytes, all_bytes, self.endian, self.system_info.as_ref()) } }"):
+    die("get_stream changed: %s" % gs)
+grs = fn_body(r"pub fn get_raw_stream\(&'a self, stream_type: u32\) -> Result<&'a \[u8\], Error> \{", "get_raw_stream")
+if grs != ("match self.streams.get(&stream_type) { None => Err(Error::StreamNotFound), Some((_, dir)) => { let bytes = self.data.deref(); "
+           "location_slice(bytes, &dir.location) } }"):
+    die("get_raw_stream changed: %s" % grs)
+ls_ = fn_body(r"fn location_slice<'a>\(\s*bytes: &'a \[u8\],\s*loc: &md::MINIDUMP_LOCATION_DESCRIPTOR,\s*\) -> Result<&'a \[u8\], Error> \{", "location_slice")
+if ls_ != ("let start = loc.rva as usize; start .checked_add(loc.data_size as usize) .and_then(|end| bytes.get(start..end)) .ok_or(Error::StreamReadFailure)"):
+    die("location_slice changed: %s" % ls_)
+gm = fn_body(r"pub fn get_memory\(&'a self\) -> Option<UnifiedMemoryList<'a>> \{", "get_memory")
+if gm != ("self.get_stream::<MinidumpMemory64List>() .map(UnifiedMemoryList::Memory64) .or_else(|_| { self.get_stream::<MinidumpMemoryList>() "
+          ".map(UnifiedMemoryList::Memory) }) .ok()"):
+    die("get_memory changed: %s" % gm)
+alls = fn_body(r"pub fn all_streams\(&self\) -> impl Iterator<Item = &md::MINIDUMP_DIRECTORY> \+ '_ \{", "all_streams")
+if alls != "self.streams.iter().map(|(_, (_, stream))| stream)":
+    die("all_streams changed: %s" % alls)
+lines.append("Definition RD_VERSION_MASK : Z := %d." % intlit(mm.group(1)))
+lines.append("Definition RD_READ_STEPS : list string := [%s]." % "; ".join('"%s"' % n for n in READ_STEPS))
+lines.append('Definition RD_ACCESSORS_PINNED : list string := ["get_stream"; "get_raw_stream"; "location_slice"; "get_memory"; "all_streams"; "unknown_streams"; "unimplemented_streams"].')
 
 out = ("(* GENERATED by translate/c02_reader.py from minidump/src/minidump.rs and minidump-common/src/format.rs — do not edit *)\n"
        "From Coq Require Import ZArith List String.\nImport ListNotations.\nOpen Scope string_scope.\nOpen Scope Z_scope.\n"
